@@ -916,3 +916,143 @@ def check_periodic_ends_only(chk, lib, rule):
                    err == 'ValueError' and not m.thomas_calls and not m.k.d['t'].writes, where, key)
             chk.ob(rule, "Periodic, n %s: the rows compared are the first and the last data row" % nv,
                    len(cmpd) >= 1 and {cmpd[0][1], cmpd[0][2]} == {str(Y(0)), str(Y(nn - 1))}, where, key + '-which-rows')
+
+
+# --------------------------------------------------------------------------- reader-based oracles: the rows against the evaluation formula
+def piece_in_k(lib):
+    """the spline piece of interval i_x as a rational function of q, x[i], x[i+1], y[i], y[i+1], k[i], k[i+1]
+    (evaluation kernel with a, b replaced by what calc_coefficients writes); None if extraction fails"""
+    from ..kernels import run_spline
+    m, out, ex, _ = run_calc(lib, 'NotAKnot')
+    if ex is not None or not (isinstance(out, Enum) and out.variant == 'Ok'):
+        return None
+    tup = deref_all(out.fields['0'])
+    try:
+        ab = []
+        for z in tup.items:
+            t = deref_all(z).d['t']
+            g = [g for g in t.generic if isinstance(g['value'], Rat)][0]
+            ab.append(reindex(g['value'], {g['var']: A('i_x')}))
+    except Exception:
+        return None
+    o = run_spline(lib, 'Yes', 'inside')
+    if o.kind != 'ok' or len(o.m.writes) != 1:
+        return None
+    i = A('i_x')
+    return o.m.writes[0][1].subs({str(data_atom('a', [i])): ab[0], str(data_atom('b', [i])): ab[1]})
+
+
+def piece_at(Pk, j):
+    return reindex(Pk, {'i_x': j if isinstance(j, Rat) else Rat.const(j)})
+
+
+def dq(r, n=1):
+    for _ in range(n):
+        r = diff(r, 'q')
+    return r
+
+
+def kname(j):
+    return 'k[%s]' % idx_name(j if isinstance(j, Rat) else Rat.const(j))
+
+
+def lin_coeff(r, atom):
+    """coefficient of `atom` in a rational function that is linear in it (denominator free of it)"""
+    return Rat(r.n.coeff_of(atom, 1), r.d)
+
+
+def in_span(F, gens, probes):
+    """is the linear form F a combination of the linear forms `gens`?  The multipliers are determined from the coefficients
+    of the probe atoms (one per generator) and the identity is then verified exactly."""
+    n = len(gens)
+    # solve the n x n system  sum_j lam_j * coeff(gens_j, probe_i) = coeff(F, probe_i)  by Cramer (n <= 2)
+    Mx = [[lin_coeff(g, p) for g in gens] for p in probes]
+    rhs = [lin_coeff(F, p) for p in probes]
+    if n == 1:
+        if Mx[0][0].is_zero():
+            return False
+        lam = [rhs[0] / Mx[0][0]]
+    else:
+        det = Mx[0][0] * Mx[1][1] - Mx[0][1] * Mx[1][0]
+        if det.is_zero():
+            return False
+        lam = [(rhs[0] * Mx[1][1] - Mx[0][1] * rhs[1]) / det, (Mx[0][0] * rhs[1] - rhs[0] * Mx[1][0]) / det]
+    comb = Rat.const(0)
+    for l, g in zip(lam, gens):
+        comb = comb + l * g
+    return (F - comb).is_zero() and not all(l.is_zero() for l in lam)
+
+
+def check_rows_against_reader(chk, lib, rule_c2, rule_bc, do_interior=True, do_boundary=True):
+    """ties the WRITER (rows of the system) to the READER (piece formula): the interior row is the jump of S'' computed from the
+    neighbouring pieces, and each boundary row is the boundary quantity computed from the end piece(s)."""
+    Pk = piece_in_k(lib)
+    where = lib.body(SFK)['span']
+    if not chk.ob(rule_c2, "the spline piece was extracted as a function of the slopes k (evaluation kernel composed with calc_coefficients)", Pk is not None, where, 'reader-extracted'):
+        return
+    i = A('i')
+    # ---- interior: jump of the second derivative at node i
+    J2 = dq(piece_at(Pk, i - 1), 2).subs({'q': X(i)}) - dq(piece_at(Pk, i), 2).subs({'q': X(i)})
+    m, out, ex = run_solve(lib, mixed('Natural', 'Natural'), None)
+    if ex is not None or len(m.thomas_calls) != 1:
+        chk.ob(rule_c2, "system extracted for the reader comparison: %s" % ex, False, ex.where if ex else where, 'reader-system')
+        return
+    s = System(m.thomas_calls[0])
+    L, _, _ = s.generic('low')
+    M, _, _ = s.generic('mid')
+    U, _, _ = s.generic('up')
+    R, _, _ = s.generic('rhs')
+    F = L * A(kname(i - 1)) + M * A(kname(i)) + U * A(kname(i + 1)) - R
+    if do_interior:
+        chk.ob(rule_c2, "interior row i is proportional to S''(x_i - 0) - S''(x_i + 0) computed from the two neighbouring pieces as the evaluation code reads them",
+               in_span(F, [J2], [kname(i)]), where, 'reader-c2-jump', str(J2)[:300])
+    if not do_boundary:
+        return
+    # ---- boundary rows, n symbolic and n = 3
+    for nval in (None, 3):
+        nn = N if nval is None else Rat.const(3)
+        nv = 'symbolic' if nval is None else '3'
+        for kind in KINDS:
+            if nval == 3 and kind == 'NotAKnot':
+                other = 'Natural'     # (NotAKnot, NotAKnot, 3) is the parabola arm
+            else:
+                other = kind
+            for side in ('left', 'right'):
+                lk, rk = (kind, other) if side == 'left' else (other, kind)
+                m, out, ex = run_solve(lib, mixed(lk, rk), nval)
+                key = 'reader-%s-%s-n%s' % (side, kind, nv)
+                if ex is not None or len(m.thomas_calls) != 1:
+                    chk.ob(rule_bc, "system Mixed{%s,%s} n %s extracted: %s" % (lk, rk, nv, ex), False, ex.where if ex else where, key + '-system')
+                    continue
+                s = System(m.thomas_calls[0])
+                if side == 'left':
+                    e0, e1, e2 = Rat.const(0), Rat.const(1), Rat.const(2)
+                    Frow = s.at('mid', 0) * A(kname(e0)) + s.at('up', 0) * A(kname(e1)) - s.at('rhs', 0)
+                    end_piece, inner_piece = piece_at(Pk, e0), piece_at(Pk, e1)
+                    xe = X(e0)
+                    v = A('v_l')
+                    inner_node = e1
+                else:
+                    e0, e1, e2 = nn - 1, nn - 2, nn - 3
+                    Frow = s.at('mid', nn - 1) * A(kname(e0)) + s.at('low', nn - 1) * A(kname(e1)) - s.at('rhs', nn - 1)
+                    end_piece, inner_piece = piece_at(Pk, e1), piece_at(Pk, e2)
+                    xe = X(e0)
+                    v = A('v_r')
+                    inner_node = e1
+                if kind in ('Natural', 'SecondDeriv'):
+                    Bq = dq(end_piece, 2).subs({'q': xe}) - (v if kind == 'SecondDeriv' else Rat.const(0))
+                    ok = in_span(Frow, [Bq], [kname(e0)])
+                    what = "S''(x_end)%s computed from the end piece" % (' - v' if kind == 'SecondDeriv' else '')
+                elif kind in ('Clamped', 'FirstDeriv'):
+                    Bq = dq(end_piece, 1).subs({'q': xe}) - (v if kind == 'FirstDeriv' else Rat.const(0))
+                    ok = in_span(Frow, [Bq], [kname(e0)])
+                    what = "S'(x_end)%s computed from the end piece" % (' - v' if kind == 'FirstDeriv' else '')
+                else:
+                    # third-derivative jump at the first interior node, possibly reduced by the interior (C2) row of that node
+                    J3 = dq(end_piece, 3) - dq(inner_piece, 3)
+                    j = inner_node
+                    Lj, Mj, Uj, Rj = s.at('low', j), s.at('mid', j), s.at('up', j), s.at('rhs', j)
+                    Fint = Lj * A(kname(j - 1)) + Mj * A(kname(j)) + Uj * A(kname(j + 1)) - Rj
+                    ok = in_span(Frow, [J3, Fint], [kname(e0), kname(e2)])
+                    what = "the jump of S''' at the first interior node (reduced by that node's C2 row), computed from the two end pieces"
+                chk.ob(rule_bc, "%s %s row (n %s) is proportional to %s, as the evaluation code reads them" % (side, kind, nv, what), ok, where, key)
